@@ -660,7 +660,9 @@ func (e *env) statement(b *qb, hdr string, dsID string) {
 	}
 }
 
-// cacheProbe: two requests whose transform-cache keys collide (hdr+":"+sql vs sql), on a fresh handler.
+// cacheProbe: REGRESSION MONITOR (must never fire since /repo 12df811, key = headerDB + NUL + sql): two requests whose
+// transform-cache keys collided under the old construction (hdr+":"+sql vs sql), in both orders on a fresh handler.
+// Any `*:cache-collision:*` key is a violation (none is listed in known_findings).
 func (e *env) cacheProbe(r *vh.Rand, dsID string) {
 	g := &gen{r: r}
 	mk := func() *qb {
@@ -693,6 +695,7 @@ func (e *env) cacheProbe(r *vh.Rand, dsID string) {
 		pre.id("prod")
 		pre.p(":")
 		pre.toks = append(pre.toks, with.toks...)
+		pre.refs = append(pre.refs, with.refs...) // the statement after the `prod:` prefix has the same table positions
 		if order == 0 {
 			e.statement(with, "prod", dsID)
 			e.statement(pre, "", dsID)
